@@ -196,9 +196,12 @@ def effect_assigns(varname, rhs_pred, also=None):
             return False, 'no successor'
         names = {varname} | (set(also(f)) if also else set())
         for e in f.blocks[s]['ev']:
-            if e['k'] == 'asg' and e['op'] == '=' and isinstance(strip(e['l']), dict) and \
-                    strip(e['l']).get('k') == 'var' and (strip(e['l'])['n'].split('#')[0].split('@')[0] in names or strip(e['l'])['n'] in names):
-                return bool(rhs_pred(e.get('r'))), '%s = %s' % (strip(e['l'])['n'], dstr(e.get('r')))
+            l_ = strip(e['l']) if e['k'] == 'asg' else None
+            if isinstance(l_, dict) and l_.get('k') == 'un' and l_.get('op') == '*':      # an out-parameter passed by pointer: `*v = x`
+                l_ = strip(l_.get('e'))
+            if e['k'] == 'asg' and e['op'] == '=' and isinstance(l_, dict) and \
+                    l_.get('k') == 'var' and (l_['n'].split('#')[0].split('@')[0] in names or l_['n'] in names):
+                return bool(rhs_pred(e.get('r'))), '%s = %s' % (l_['n'], dstr(e.get('r')))
         return False, 'no assignment to %s on the true side' % varname
     return eff
 
